@@ -23,6 +23,10 @@ def main(ctx: Ctx):
                        'a consumer thread is blocked in results_iter() before the event; plus target exception in the k-th item, pool-style reader on a raw Pipe; '
                        'non-trivial = an event was injected; distinct by (program, k, mode)')
     meta = landing.regenerate(ctx)
+    import translate
+    errors, _ = translate.regenerate_forward()      # T-fwd: Gen/Forward.lean from the current _fetch_results
+    for e in errors:
+        ctx.broke('translation', 'harness/translate.py (T-fwd)', e)
     ctx.lean()
     T = ctx.thorough
     progs = ['pthreadRun', 'pprocessRun', 'premoteRun']
@@ -53,6 +57,7 @@ def main(ctx: Ctx):
         ctx.case((rec['prog'], rec['k'], rec['mode']), rec['k'] is not None, sample=landing.describe(rec) if i % 47 == 0 else None)
         ctx.count(f'{kind}:{rec["mode"]}')
         landing.judge(ctx, rec, evaluate)
+    forward_correspondence(ctx)
     sess = inject.Session()
     try:
         # ---- thread kind: a terminate landing inside _cleanup (before it wrote the marker) with a consumer already blocked
@@ -68,10 +73,12 @@ def main(ctx: Ctx):
                              {'prog': 'pthreadRun', 'k': k, 'mode': 'terminate', 'scenario': 'cleanup-landing'})
         # ---- consumer blocked in results_iter() before the worker is stopped
         for kind in ('thread', 'process', 'remote'):
-            for how in ('terminate', 'kill', 'exception'):
-                if how == 'kill' and kind == 'thread':
+            for how in ('terminate', 'kill', 'exception', 'force'):
+                if how in ('kill', 'force') and kind == 'thread':
                     continue
-                w = c05.mk(kind, sess, TG.t_fail_on_neg)
+                # 'force': the target swallows the graceful request, the child has to be killed by terminate(force=True)
+                # (remote kind: by the server, which then reports the outcome on the child's behalf)
+                w = c05.mk(kind, sess, TG.t_swallow_on_neg if how == 'force' else TG.t_fail_on_neg)
                 got = []
                 t = threading.Thread(target=lambda: got.extend(w.results_iter()), daemon=True)
                 w.enqueue(2)
@@ -82,6 +89,10 @@ def main(ctx: Ctx):
                     watchdog(lambda: w.terminate(2), 15)
                 elif how == 'kill':
                     os.kill(w.pid, signal.SIGKILL)
+                elif how == 'force':
+                    w.enqueue(-1)
+                    time.sleep(0.3)
+                    watchdog(lambda: w.terminate(0.5, force=True), 15)
                 else:
                     w.enqueue(-1)
                 t.join(8)
@@ -96,9 +107,9 @@ def main(ctx: Ctx):
         # ---- pool-style reader: raw Pipe handed in as results_pipe, must see the end marker or EOF
         from pyworkers.utils import Pipe
         for kind in ('process', 'remote'):
-            for how in ('terminate', 'kill', 'exception'):
+            for how in ('terminate', 'kill', 'exception', 'force'):
                 q = Pipe()
-                w = c05.mk(kind, sess, TG.t_fail_on_neg, results_pipe=q)
+                w = c05.mk(kind, sess, TG.t_swallow_on_neg if how == 'force' else TG.t_fail_on_neg, results_pipe=q)
                 w.enqueue(2)
                 w.enqueue(3)
                 time.sleep(0.5)
@@ -106,6 +117,10 @@ def main(ctx: Ctx):
                     watchdog(lambda: w.terminate(2), 15)
                 elif how == 'kill':
                     os.kill(w.pid, signal.SIGKILL)
+                elif how == 'force':
+                    w.enqueue(-1)
+                    time.sleep(0.3)
+                    watchdog(lambda: w.terminate(0.5, force=True), 15)
                 else:
                     w.enqueue(-1)
                 msgs, end = [], None
@@ -133,6 +148,108 @@ def main(ctx: Ctx):
         sess.close()
 
 
+def _real_forwarder():
+    """returns real(msgs) -> (canonical line, stub worker): the real _fetch_results over a scripted message sequence"""
+    import pyworkers.persistent_remote as PR
+    from pyworkers.remote import ConnectionClosedError
+
+    class End:
+        def __init__(self):
+            self.items, self.closed = [], False
+
+        def put(self, m):
+            self.items.append(m)
+
+        def close(self):
+            self.closed = True
+
+    class Stub(PR.PersistentRemoteWorker):
+        id = 'w'
+
+        def __init__(self):        # no start-up: only _fetch_results is exercised
+            self._results_pipe = type('P', (), {})()
+            self._results_pipe.child_end = End()
+            self._socket = None
+            self._socket_closed = False
+            self._result = None
+            self._user_state = None
+
+    def real(msgs):
+        it = iter(msgs)
+
+        def recv(sock, comment=None):
+            try:
+                t = next(it)
+            except StopIteration:
+                raise ConnectionClosedError()
+            if t[0] == 'i':
+                return (int(t[1:]), True, 'v', 'w')
+            if t[0] == 'e':
+                return (int(t[1:]), False, None, 'w')
+            return (True, 0)
+        old = PR.recv_msg
+        PR.recv_msg = recv
+        w = Stub()
+        crashed = False
+        try:
+            w._fetch_results()
+        except Exception:          # whatever escapes kills the forwarding thread where it stands
+            crashed = True
+        finally:
+            PR.recv_msg = old
+        out = ','.join(('i' if m[1] else 'e') + str(m[0]) for m in w._results_pipe.child_end.items)
+        return f'crashed={int(crashed)} out={out}', w
+    return real
+
+
+def _run_forwarder(ms):
+    return _real_forwarder()(ms)[0]
+
+
+def forward_correspondence(ctx):
+    """T-fwd + the real PersistentRemoteWorker._fetch_results over scripted message sequences vs Forward.fwd"""
+    real = _real_forwarder()
+    rng = ctx.rng
+    cases = []
+    # every well-formed stream with up to 4 results, and a seeded stream of malformed ones
+    for j in range(5):
+        for e in (None, j, j + 1):
+            for f in (False, True):
+                cases.append([f'i{c}' for c in range(1, j + 1)] + ([f'e{e}'] if e is not None else []) + (['f'] if f else []))
+    for _ in range(150 if not ctx.thorough else 1500):
+        n = rng.randint(0, 6)
+        ms = []
+        c = 0
+        for _ in range(n):
+            r = rng.random()
+            if r < 0.6:
+                c += 1
+                ms.append(f'i{c if rng.random() < 0.85 else c + rng.choice([-1, 1, 2])}')
+            elif r < 0.85:
+                ms.append(f'e{c + rng.choice([0, 0, 1, 1, 2, -1])}' if c + 0 >= 0 else 'e0')
+            else:
+                ms.append('f')
+        cases.append([m.replace('-', '') for m in ms])
+    model = ctx.model(['fwd ' + ' '.join(ms) for ms in cases])
+    for i, ms in enumerate(cases):
+        got, w = real(ms)
+        wf = i < 30
+        ctx.case(('fwd', tuple(ms)), True, sample={'case': '_fetch_results over ' + ' '.join(ms), 'real': got} if i % 29 == 0 else None)
+        ctx.count('fwd-wellformed' if wf else 'fwd-malformed')
+        if model is not None:
+            ctx.cov['traces_validated_against_impl'] += 1
+            if model[i] != got:
+                ctx.broke('correspondence', 'Forward.fwd vs PersistentRemoteWorker._fetch_results', f'messages {ms}: real {got} model {model[i]}')
+        if wf:
+            # the property itself on the real forwarder: the local stream is the results followed by exactly one end message
+            items = w._results_pipe.child_end.items
+            ends = [m for m in items if not m[1]]
+            nres = sum(1 for m in ms if m[0] == 'i')
+            if 'crashed=1' in got or len(ends) != 1 or items[-1][1] or [m[0] for m in items[:-1]] != list(range(1, nres + 1)):
+                ctx.fail('forwarder-stream-not-ended-once', f'_fetch_results over the backend stream {ms} forwarded {got}: not the results followed by exactly one end-of-stream message',
+                         {'scenario': 'forwarder', 'messages': ms})
+
+
 def cleanup_lines(prog):
     """line numbers inside finally blocks of the translated program"""
     import re
@@ -146,5 +263,14 @@ def cleanup_lines(prog):
 
 
 def replay(case):
+    if case.get('scenario') == 'forwarder':
+        import common
+        common.repo_on_path()
+        ms = case['messages']
+        ctx = Ctx('C06', 'quick')
+        got = _run_forwarder(ms)
+        print('real :', got)
+        print('model:', common.run_driver(['fwd ' + ' '.join(ms)])[0])
+        return
     import c01
     c01.replay(case)
